@@ -55,6 +55,13 @@ def scenarios(tier):
         # discard_freelist against an allocation from the list
         sc.append(("discard_vs_pop_" + kind, c, SETUP_TWOSEG,
                    [[{"k": "discard"}], [AB(8), FILL(T1), VER(T1)]], {"live": True}))
+        # discard_freelist against a release that becomes the new head between the discarder's mark and its unlink
+        sc.append(("discard_vs_insert_" + kind, c, SETUP_TWOSEG,
+                   [[{"k": "discard"}], [DROP(2), AB(8), FILL(T1), VER(T1)]], {"live": True}))
+        # a segment written and released by one thread is the SECOND fit of the other thread's request (the search walks
+        # over a node before it takes one: the hand-over must be ordered through the skipped node's word as well)
+        sc.append(("recycle_second_" + kind, c, SETUP_TWOSEG,
+                   [[AB(40), FILL(T0), DROP(T0)], [AB(40), FILL(T1), VER(T1)]], {"live": False}))
         # the remainder rule reads the minimum segment size while another thread changes it (and the discarded counter)
         sc.append(("minseg_race_" + kind, c, SETUP_ONESEG,
                    [[{"k": "setmin", "v": 40}, {"k": "incdisc", "v": 3}, DROP(2)], [AB(16), FILL(T1), VER(T1), DROP(T1)]], {"live": True}))
@@ -77,6 +84,11 @@ def scenarios(tier):
         c = es.conc_cfg(cap=200, kind=kind, minseg=8, retries=2)
         sc.append(("fresh_" + kind, c, SETUP_FRESH,
                    [[AB(24), FILL(T0), DROP(T0), AT(8, 8), FILL(T0 + 1)], [AB(40), FILL(T1), VER(T1), DROP(T1)]],
+                   {"live": True, "expect_live": True}))
+        # the same with sizes that change the cursor's residue mod 8 (a typed request's padding depends on where the cursor
+        # is when its CAS finally succeeds -- after the other thread's release it may be lower than when it was read)
+        sc.append(("fresh_residue_" + kind, c, SETUP_FRESH,
+                   [[AT(8, 8), FILL(T0), VER(T0), AA(4, 4, 3), FILL(T0 + 1)], [AB(12), FILL(T1), DROP(T1), AB(5), FILL(T1 + 1), VER(T1 + 1)]],
                    {"live": True, "expect_live": True}))
     if tier == "thorough":
         for kind in kinds:
